@@ -5,7 +5,7 @@
 From Coq Require Import List Bool Reals Lra QArith Qcanon.
 From SV Require Import Base.Num C11.Overload C09.Defs C09.Spec C09.Impl C09.GenSig C09.Thm.
 From SVGen Require Import C09_Metric.
-From SVGen Require C09_L0 C09_L1 C09_SqL2 C09_L2 C09_L1mL2 C09_SqL2Loss C09_SqL2AbsLoss C09_SqL2SqAbsLoss.
+From SVGen Require C09_L0 C09_L1 C09_SqL2 C09_L2 C09_L1mL2 C09_SqL2Loss C09_SqL2AbsLoss C09_SqL2SqAbsLoss C09_Scaled C09_FSum C09_Zero.
 Import ListNotations.
 
 Section Tie.
@@ -199,4 +199,44 @@ Proof.
   split; [intros; exact (eq_sym (gen_sql2loss rt alpha w y A x))|].
   split; [intros; exact (eq_sym (gen_sql2abs rt alpha w y A x))|].
   intros; exact (eq_sym (gen_sql2sqabs rt alpha w y A x)).
+Qed.
+
+(** ** scico/functional/_functional.py: [__call__] of ScaledFunctional, FunctionalSum, ZeroFunctional
+    regenerated from the source; the component functionals are arbitrary maps into extended values *)
+Section ExtTie.
+  Context {K : Type} {NK : Num K}.
+  #[local] Instance ES_impl : ExtSig K (ext K) := {| e_scale := ext_scale; e_add := ext_add |}.
+
+  Lemma gen_scaled (X : Type) c (f : X -> ext K) x :
+    C09_Scaled.call_gen (C09_Scaled.mk_st c f) x = scaled_impl c (f x).
+  Proof. reflexivity. Qed.
+  Lemma gen_fsum (X : Type) (f g : X -> ext K) x :
+    C09_FSum.call_gen (C09_FSum.mk_st f g) x = fsum_impl (f x) (g x).
+  Proof. reflexivity. Qed.
+  Lemma gen_zero (d : list (cx (K:=K))) : C09_Zero.call_gen d = zero_impl d.
+  Proof. reflexivity. Qed.
+End ExtTie.
+
+Theorem gen_algebra_spec :
+  (forall (X : Type) (c : R) (f : X -> ext R) x,
+     C09_Scaled.call_gen (ES:=ES_impl) (C09_Scaled.mk_st c f) x = scaled_spec c (f x)) /\
+  (forall (X : Type) (f g : X -> ext R) x,
+     C09_FSum.call_gen (ES:=ES_impl) (C09_FSum.mk_st f g) x = fsum_spec (f x) (g x)) /\
+  (forall d : list cxR, C09_Zero.call_gen d = zero_spec d).
+Proof.
+  split; [intros; exact (eq_trans (gen_scaled X c f x) (scaled_ok c (f x)))|].
+  split; [intros; exact (eq_trans (gen_fsum X f g x) (fsum_ok (f x) (g x)))|].
+  intros; exact (eq_trans (gen_zero d) (zero_ok d)).
+Qed.
+
+Theorem gen_algebra_exec :
+  (forall (X : Type) (c : Qc) (f : X -> ext Qc) x,
+     scaled_impl c (f x) = C09_Scaled.call_gen (ES:=ES_impl) (C09_Scaled.mk_st c f) x) /\
+  (forall (X : Type) (f g : X -> ext Qc) x,
+     fsum_impl (f x) (g x) = C09_FSum.call_gen (ES:=ES_impl) (C09_FSum.mk_st f g) x) /\
+  (forall d : list cxQ, zero_impl d = C09_Zero.call_gen d).
+Proof.
+  split; [intros; exact (eq_sym (gen_scaled X c f x))|].
+  split; [intros; exact (eq_sym (gen_fsum X f g x))|].
+  intros; exact (eq_sym (gen_zero d)).
 Qed.
